@@ -312,19 +312,29 @@ fn bx_dsp() {
         }
     }));
     let targets = std::env::var("BX_TARGETS").unwrap_or_else(|_| "zc,zcclk,symsync,ssclk,fftfilt,fftfiltc,firf,hilbert,iir1,slicer,qdemod".into());
-    let n: u64 = std::env::var("BX_N").ok().and_then(|s| s.parse().ok()).unwrap_or(2);
+    // one differential run is millions of samples: BX_N (sized for the small-state harnesses) is scaled down
+    let n: u64 = std::env::var("BX_N").ok().and_then(|s| s.parse::<u64>().ok()).map(|n| (n / 50).max(2)).unwrap_or(2);
     let base: u64 = std::env::var("VERIF_SEED").ok().and_then(|s| s.parse().ok()).unwrap_or(1);
+    // targets are independent: one thread each
+    let results: Vec<(String, u64, u64, Result<(), Fail>)> = std::thread::scope(|sc| {
+        let hs: Vec<_> = targets.split(',').map(|t| {
+            sc.spawn(move || {
+                let mut runs = 0u64;
+                let mut samples = 0u64;
+                let mut res: Result<(), Fail> = Ok(());
+                for i in 0..n {
+                    match one(t, base * 100 + i) {
+                        Ok(s) => { samples += s; runs += 1; }
+                        Err(f) => { res = Err(f); runs += 1; break; }
+                    }
+                }
+                (t.to_string(), runs, samples, res)
+            })
+        }).collect();
+        hs.into_iter().map(|h| h.join().unwrap()).collect()
+    });
     let mut failed = false;
-    for t in targets.split(',') {
-        let mut runs = 0u64;
-        let mut samples = 0u64;
-        let mut res: Result<(), Fail> = Ok(());
-        for i in 0..n {
-            match one(t, base * 100 + i) {
-                Ok(s) => { samples += s; runs += 1; }
-                Err(f) => { res = Err(f); runs += 1; break; }
-            }
-        }
+    for (t, runs, samples, res) in results {
         println!("BXSTAT {{\"target\":\"{}\",\"differential_runs\":{},\"output_samples_compared\":{}}}", t, runs, samples);
         if let Err(f) = res {
             f.print();
